@@ -33,7 +33,7 @@ partial def tree : Sexp → Option C
   | .list [.atom "infix", l, .str o, r] => do
     let l ← tree l
     let r ← tree r
-    some (.infix l o d r)
+    some (.binop l o d r)
   | .list [.atom "lam", .list xs, b] => do
     let xs ← args? xs
     let b ← tree b
@@ -131,7 +131,7 @@ partial def render (c : C) : String :=
   | .app .. =>
     let (f, as) := appParts c
     s!"(app {sp (span c)} {render f}" ++ String.join (as.map fun x => " " ++ render x) ++ ")"
-  | .infix l o os r => s!"(infix {sp (span c)} {render l} {Sexp.quote o} {sp os} {render r})"
+  | .binop l o os r => s!"(infix {sp (span c)} {render l} {Sexp.quote o} {sp os} {render r})"
   | .lam _ xs _ b => s!"(lam {sp (span c)} (" ++ " ".intercalate (xs.map arg) ++ s!") {render b})"
   | .ite _ x _ a _ b => s!"(if {sp (span c)} {render x} {render a} {render b})"
   | .letIn _ x xs _ rhs _ body =>
